@@ -599,6 +599,7 @@ pub fn run(ctx: &Ctx) -> i32 {
         ctx.sample(json!(t.files.iter().map(|f| json!({"path": normalize(&f.disk).strip_prefix(&root_base).map(|p| p.display().to_string()).unwrap_or_default(), "rule": f.rule, "lines": ir::print_canonical(&f.nodes).lines().collect::<Vec<_>>()})).collect::<Vec<_>>()));
     }
     known_finding_probes(ctx, &root_base);
+    own_directory_probes(ctx, &root_base);
     let _ = std::fs::remove_dir_all(&root_base);
     fw::finish(
         ctx,
@@ -608,6 +609,51 @@ pub fn run(ctx: &Ctx) -> i32 {
             "the random splitter never cuts conditional chains or macro definitions across files and puts no .include into macro bodies: those three cases deviate on the pinned tree (known findings include/split/*, include/inside-macro-body/*) and are re-observed by fixed witness trees",
         ],
     )
+}
+
+/// An `.includepath` that names the directory its own file lies in, in every spelling, inside files that
+/// were themselves reached by odd paths: the directory is searched for the rest of the build like any other
+/// `.includepath` (the generated trees draw the spelling of the path and the way the file is reached
+/// independently, these fixed trees make sure the corners meet).
+fn own_directory_probes(ctx: &Ctx, scratch: &Path) {
+    let mut k = 0;
+    for reached_as in ["../a.inc", "../lib/../a.inc", "./../a.inc", "../sub/a.inc", "../sub/../sub/a.inc"] {
+        for own in [".", "./", "", "../dir", "sub/..", "./.", "ABS"] {
+            k += 1;
+            let root = scratch.join(format!("own{}", k));
+            let dir = root.join("dir");
+            let in_sub = reached_as.contains("sub/a.inc");
+            let home = if in_sub { dir.join("sub") } else { dir.clone() };
+            if std::fs::create_dir_all(dir.join("src")).is_err() || std::fs::create_dir_all(dir.join("sub")).is_err() || std::fs::create_dir_all(dir.join("lib")).is_err() {
+                ctx.inconclusive("cannot write scratch tree");
+                continue;
+            }
+            // what the path names must be the directory of a.inc
+            let own_text = match own {
+                "ABS" => home.display().to_string(),
+                "../dir" if in_sub => "../sub".to_string(),
+                "sub/.." if in_sub => "../sub".to_string(),
+                o => o.to_string(),
+            };
+            let _ = std::fs::write(dir.join("src").join("main.asm"), format!("\tnop\n.include \"{}\"\n.include \"b.inc\"\n", reached_as));
+            let _ = std::fs::write(home.join("a.inc"), format!(".includepath \"{}\"\n\tldi r16, 1\n", own_text));
+            let _ = std::fs::write(home.join("b.inc"), "\tldi r17, 2\n");
+            let out = fw::build_file(&dir.join("src").join("main.asm"), &[]);
+            ctx.eval(1);
+            ctx.count("own_directory_probes", 1);
+            ctx.distinct(fw::hash_str(&format!("own|{}|{}", reached_as, own)));
+            let want = fw::build_str("\tnop\n\tldi r16, 1\n\tldi r17, 2\n");
+            let same = matches!((&out, &want), (Outcome::Ok(a), Outcome::Ok(b)) if a.code == b.code);
+            if !same {
+                ctx.violation(
+                    "include/not-found-or-rejected/includepath-from-included-file",
+                    format!("a.inc (included as \"{}\") says .includepath \"{}\" - its own directory -, the including file then includes b.inc from there: {}", reached_as, own_text, fw::clip(&format!("{:?}", out.brief()), 140)),
+                    json!({"own_directory_probe": true, "reached_as": reached_as, "includepath": own_text, "observed": out.brief()}),
+                );
+            }
+            let _ = std::fs::remove_dir_all(&root);
+        }
+    }
 }
 
 /// Known findings (KNOWN_FINDINGS.txt): witness trees under /verif/findings/C11-*/ are copied to a
@@ -648,6 +694,14 @@ fn known_finding_probes(ctx: &Ctx, scratch: &Path) {
 }
 
 pub fn replay(ctx: &Ctx, case: &Value) -> i32 {
+    if case["own_directory_probe"].as_bool() == Some(true) {
+        let root = fw::verif_root().join("build").join(format!("scratch-c11-replay-{}", std::process::id()));
+        own_directory_probes(ctx, &root);
+        let _ = std::fs::remove_dir_all(&root);
+        ctx.distinct(1);
+        ctx.distinct(2);
+        return fw::finish(ctx, "replay", &[]);
+    }
     if case.get("witness").is_some() {
         let root = fw::verif_root().join("build").join(format!("scratch-c11-replay-{}", std::process::id()));
         known_finding_probes(ctx, &root);
